@@ -1,9 +1,11 @@
 package loader
 
+import "github.com/compose-spec/compose-go/v2/types"
+
 // C03 at pipeline level: a document using short syntaxes loads to the same model as the
 // document spelling the equivalent long forms, also when a second file refines one entry.
 func VerifC03Pipeline() {
-	which := vrtChoice("attr", 8)
+	which := vrtChoice("attr", 9)
 	a := "x" + vrtString("a", vrtParam("VL", 1), "ab")
 	b := "y" + vrtString("b", vrtParam("VL", 1), "ab")
 	var attr string
@@ -41,6 +43,10 @@ func VerifC03Pipeline() {
 		attr = "build"
 		short = "/ctx/" + a
 		long = map[string]any{"context": "/ctx/" + a}
+	case 8:
+		attr = "environment"
+		short = []any{"A=" + a, "EMPTY=", "INHERIT"}
+		long = map[string]any{"A": a, "EMPTY": "", "INHERIT": nil}
 	case 7:
 		attr = "networks"
 		short = []any{"n1", "n2"}
@@ -62,8 +68,10 @@ func VerifC03Pipeline() {
 	if which == 5 && vrtChoice("refine", 2) == 1 {
 		over = append(over, map[string]any{"services": map[string]any{"s": map[string]any{"depends_on": map[string]any{"d1": map[string]any{"condition": "service_healthy"}}}}})
 	}
-	ms, es := tcLoad(nil, nil, append([]map[string]any{mk(short)}, over...)...)
-	ml, el := tcLoad(nil, nil, append([]map[string]any{mk(long)}, over...)...)
+	// the loader environment defines the names used by valueless / empty entries
+	env := types.Mapping{"EMPTY": "from-host", "INHERIT": "inherited"}
+	ms, es := tcLoad(env, nil, append([]map[string]any{mk(short)}, over...)...)
+	ml, el := tcLoad(env, nil, append([]map[string]any{mk(long)}, over...)...)
 	vrtObserve("errs", es != nil)
 	vrtObserve("errl", el != nil)
 	vrtAssert("both-load", es == nil && el == nil)
@@ -71,5 +79,14 @@ func VerifC03Pipeline() {
 		return
 	}
 	vrtObserve("short", tcSvc(ms, "s")[attr])
+	if attr == "environment" {
+		// compare as key/value sets (the list spelling stays a list in the dict-level model)
+		kvs, ok1 := c04KV(tcSvc(ms, "s")[attr])
+		kvl, ok2 := c04KV(tcSvc(ml, "s")[attr])
+		vrtAssert("short-equals-long", ok1 && ok2 && vrtDeepEqual(any(kvs), any(kvl)))
+		vrtAssert("empty-value-stays-empty", kvs["EMPTY"] == "" && kvl["EMPTY"] == "")
+		vrtAssert("valueless-inherits", kvs["INHERIT"] == "inherited" && kvl["INHERIT"] == "inherited")
+		return
+	}
 	vrtAssert("short-equals-long", vrtDeepEqual(tcSvc(ms, "s")[attr], tcSvc(ml, "s")[attr]))
 }
